@@ -11,7 +11,7 @@ ASSUMPTIONS = [
     "asserts are enabled (no python -O): the annotation tiling check is an assert",
     "annotation ids are str, annotation values bytes-like, header fields non-negative ints (other Python types are outside the model)",
 ]
-IMPORTS = "From V Require Import Model.Bytes Model.Wire Harness.Cmp Harness.H06."
+IMPORTS = "From V Require Import Model.Bytes Model.SockIO Model.Wire Model.WireIO Harness.Cmp Harness.H06."
 BIG = 1 << 30
 
 
@@ -19,12 +19,19 @@ class StreamSock:
     """socket whose recv fragments the stream pseudo-randomly and injects retryable errors"""
     def __init__(self, stream, rng):
         self.stream, self.pos, self.rng = stream, 0, rng
+        self.script, self.waitall = [], None     # what the socket did, call by call (for Model/WireIO.v)
 
     def recv(self, n, flags=0):
+        import socket as _s
+        if self.waitall is None:
+            self.waitall = bool(flags & getattr(_s, "MSG_WAITALL", 0))
         r = self.rng.random()
         if r < 0.08:
-            raise OSError(self.rng.choice([errno.EINTR, errno.EAGAIN]), "scripted")
+            e = self.rng.choice([errno.EINTR, errno.EAGAIN])
+            self.script.append(["E", e])
+            raise OSError(e, "scripted")
         k = n if r < 0.3 else self.rng.randint(1, max(1, n))
+        self.script.append(["D", k])
         chunk = self.stream[self.pos:self.pos + min(k, n)]
         self.pos += len(chunk)
         return chunk
@@ -132,6 +139,8 @@ def run_decode(case, rng_seed):
         except Exception as x:
             obs = {"kind": classify(x)}
         obs["consumed"] = sock.pos
+        obs["script"] = sock.script
+        obs["waitall"] = bool(sock.waitall)
         obs["unz"] = shim.decompressed
         return obs
     return with_env(case["cfg"], None, go)
@@ -267,9 +276,10 @@ def c_decode(case, obs):
     unz = obs["unz"]
     unz_c = "None" if unz in (None, "uncalled") else "(Some %s)" % cbytes(unz)
     acc = case["accepted"]
-    return "DC {| d_cfg := %s; d_accepted := %s; d_unz := %s; d_stream := %s; d_out := %s; d_consumed := %s |}" % (
+    script = clist(["Deliver %s" % vlib.cnat(k) if t == "D" else "SockIO.Err (Some %s)" % cN(k) for t, k in obs.get("script", [])])
+    return "DC {| d_cfg := %s; d_accepted := %s; d_unz := %s; d_stream := %s; d_out := %s; d_consumed := %s; d_waitall := %s; d_script := %s |}" % (
         c_cfg(case["cfg"]), copt(acc, lambda l: clist([cN(x) for x in l])), unz_c, cbytes(case["stream"]),
-        c_res(obs["kind"], o), cN(obs["consumed"]))
+        c_res(obs["kind"], o), cN(obs["consumed"]), vlib.cbool(obs.get("waitall", False)), script)
 
 
 # ---------------------------------------------------------------- generators
